@@ -14,7 +14,7 @@ import tempfile
 
 from harness import common, par
 
-FAMILIES = ['cycle', 'chain', 'alt', 'noloc', 'badloc', 'emptyloc', 'e500', 'e401', 'reset', 'selfredirect', 'auth401']
+FAMILIES = ['cycle', 'chain', 'alt', 'noloc', 'badloc', 'emptyloc', 'e500', 'e401', 'reset', 'selfredirect', 'auth401', 'e408', 'e429', 'e503']
 DEAD_PORT = 9
 
 # connection attempts to a port nobody listens on cannot be seen by a server: they are counted through the interpreter's
@@ -113,6 +113,8 @@ def make_handler(case):
             return {'status': 404, 'reason': 'NF', 'headers': html, 'body': b'nf'}
         if t == '/':
             links = ''.join('<a href="/%s/0">%s</a>\n' % (f, f) for f in case['families'] if f != 'refused')
+            if 'rd' in case['families']:
+                links = '<a href="/rd/2">deep</a>\n' + links
             if 'refused' in case['families']:
                 links += '<a href="http://c.test:%d/refused/0">refused</a>\n' % DEAD_PORT
             links += '<a href="/sentinel.html">s</a>'
@@ -142,6 +144,21 @@ def make_handler(case):
         if fam == 'badloc':
             return {'status': code, 'reason': 'R', 'headers': [('Location', 'http://[::bad/%%')], 'body': b''}
         if fam == 'e500':
+            return {'status': 500, 'reason': 'ISE', 'headers': html, 'body': b'<html>err</html>'}
+        if fam in ('e408', 'e429', 'e503'):
+            # other answers that invite the client to ask again
+            return {'status': int(fam[1:]), 'reason': 'Again', 'headers': html + [('Retry-After', '0'), ('Connection', 'close' if fam == 'e408' else 'keep-alive')],
+                    'body': b'<html>again</html>'}
+        if fam == 'rd':
+            # a failing URL that is found a second time, nearer to the start, after a page that failed at first came good:
+            #   / -> /rd/2 -> /rd/3 -> /rd/4 -> /rd/9 (always 500);   / -> /rd/0 (503 until its last try, then links /rd/9)
+            if n in (2, 3, 4):
+                return {'status': 200, 'headers': html, 'body': ('<html><body><a href="/rd/%d">deeper</a></body></html>' % (9 if n == 4 else n + 1)).encode()}
+            if n == 0:
+                if hits.get('/rd/0-failed', 0) < case['tries'] - 1:
+                    hits['/rd/0-failed'] = hits.get('/rd/0-failed', 0) + 1
+                    return {'status': 503, 'reason': 'Later', 'headers': html, 'body': b'<html>later</html>'}
+                return {'status': 200, 'headers': html, 'body': b'<html><body><a href="/rd/9">dead again</a></body></html>'}
             return {'status': 500, 'reason': 'ISE', 'headers': html, 'body': b'<html>err</html>'}
         if fam == 'auth307':
             # a challenge and a request-repeating redirect in turn: each answer alone is harmless
@@ -174,7 +191,7 @@ def run_case(case, part):
     watch = watch_connects(addrs[2], DEAD_PORT, 60, open_dead_port) if 'refused' in case['families'] else None
     try:
         db = os.path.join(tmp, 'crawl.db')
-        argv = ['http://a.test/', '-r', '--level', '1'] + ([] if case.get('robots_mode') else ['--no-robots']) + ['--database', db, '-P', tmp, '--delete-after',
+        argv = ['http://a.test/', '-r', '--level', '6' if 'rd' in case['families'] else '1'] + ([] if case.get('robots_mode') else ['--no-robots']) + ['--database', db, '-P', tmp, '--delete-after',
                 '--quiet', '--waitretry', '0'] + (['--tries', str(case['tries'])] if case['tries'] is not None else []) + ['--max-redirect', str(case['max_redirect']),
                 '--concurrent', str(case['concurrent']), '--timeout', '10']
         if case['with_login']:
@@ -265,7 +282,15 @@ def run_case(case, part):
             bound = tries if case.get('retry_connrefused') else 1
         if fam in HOOK_FAMILIES:
             bound = tries
-        row = rowmap.get(('http://c.test:%d/refused/0' % DEAD_PORT) if fam == 'refused' else 'http://a.test/%s/0' % fam)
+        if fam == 'rd':
+            # /rd/2, /rd/3, /rd/4 once each, /rd/0 at most tries, /rd/9 at most tries
+            bound = 3 + 2 * tries
+        row = rowmap.get(('http://c.test:%d/refused/0' % DEAD_PORT) if fam == 'refused' else 'http://a.test/%s/%d' % (fam, 9 if fam == 'rd' else 0))
+        if fam == 'rd':
+            dead = sum(1 for e in log if e['target'] == '/rd/9')
+            part.count('crawls_where_a_failing_url_is_found_again_nearer_the_start')
+            if dead > tries:
+                part.violation('more-requests-than-limits-allow/rediscovered-failing-url', {'requests': dead, 'tries': tries, 'row': row}, replay)
         detail = {'family': fam, 'requests': n, 'bound': bound, 'tries': tries, 'max_redirect': maxr, 'row': row}
         if n > bound:
             part.violation('more-requests-than-limits-allow/' + fam, detail, replay)
@@ -323,6 +348,8 @@ def main():
                 fams.append('auth307')
             if i % 4 == 2:
                 fams += list(HOOK_FAMILIES)
+            if i % 4 == 1 and t >= 2:
+                fams.append('rd')
             retry_refused = None
             if rng.random() < 0.5:
                 fams.append('refused')
